@@ -155,6 +155,8 @@ func (q *Queue) Add(elem *queue.Elem) (err error) {
 				if !dropUnread {
 					q.current--
 				}
+				// the message is gone: a late acknowledgement of it must not find it in the cache
+				delete(q.readCache, dropElem.ID())
 			}
 			if dropBytes == nil {
 				q.notifier.NotifyDropped(elem, dropErr)
